@@ -5,6 +5,7 @@ from .. import shapes
 PROP_ID = "C01"
 FEATURE = "c01"
 ENGINE = "E1 kani-cbmc"
+QUICK_MAX_S = 125   # decode harnesses cost 60-120 s each; 12 run in parallel
 FUNCTIONS = ["erltf::encode -> encoder.rs encode_term_impl, encode_integer, encode_float, encode_atom_impl, encode_binary, "
              "encode_bit_binary, encode_string, encode_list_impl, encode_tuple_impl, encode_pid_impl, encode_port_impl, "
              "encode_reference_impl, encode_bigint, encode_export_ext_impl, encode_new_fun_ext_impl",
@@ -60,23 +61,27 @@ def enc_cuts(shape):
     return [r"encoder::(%s)$" % v for k, v in ENC_FN.items() if k not in need]
 
 
+MODES = {"int_small": (10, 0), "int_i32": (11, 0), "int_w4": (12, 4), "int_w5": (12, 5), "int_w8": (12, 8),
+         "big1": (12, 1), "big3": (12, 3), "big8": (12, 8), "big9": (12, 9)}
+
+
 def generate(tier, seed):
     src = ["use crate::terms::*;\nuse crate::c01::*;\nuse crate::vk;\n"]
     hs = []
     for s in ENC_SHAPES:
         n = "c01_enc__%s" % s
-        src.append(fn(n, "    let (t, r) = %s;\n    enc(&t, &r);\n    vk::leak(t); vk::leak(r);" % expr(s)))
+        mode = MODES.get(s, (0, 0))
+        src.append(fn(n, "    let (t, r) = %s;\n    enc(&t, &r, %d, %d, %d);\n    vk::leak(t); vk::leak(r);" % (expr(s), mode[0], mode[1], 1 if s.startswith("bit") else 0)))
         cont = s in ("tuple1i", "list1", "imp1", "intfun")
         hs.append(Harness(n, "encode(t) is Ok, accepted by the independent reader as the value t denotes, and byte-identical to the "
                              "reference encoding — shape %s" % s, unwind=6, unwindset=UWS, cap_s=600, cuts=CUTS_NOZ,
                           recursion=[(r"encode_term_impl|refetf::(accepts_at|denotes|emit)", 2 if cont else 1)]))
     for s in DEC_SHAPES:
-        mode = {"int_small": (10, 0), "int_i32": (11, 0), "int_w4": (12, 4), "int_w5": (12, 5), "int_w8": (12, 8),
-                "big1": (12, 1), "big3": (12, 3), "big9": (12, 9)}.get(s, (0, 0))
+        mode = MODES.get(s, (0, 0))
         cont = s in ("tuple1i", "list1", "imp1")
         for kind, re in (("dec", "false"), ("rt", "true")):
             n = "c01_%s__%s" % (kind, s)
-            src.append(fn(n, "    let (t, r) = %s;\n    dec(&r, %d, %d, %s);\n    vk::leak(t); vk::leak(r);" % (expr(s), mode[0], mode[1], re)))
+            src.append(fn(n, "    let (t, r) = %s;\n    dec(&r, %d, %d, %d, %s);\n    vk::leak(t); vk::leak(r);" % (expr(s), mode[0], mode[1], 1 if s.startswith("bit") else 0, re)))
             hs.append(Harness(n, ("decode(reference encoding of r) is Ok and denotes r" + ("; re-encoding it gives the same bytes" if kind == "rt" else "")) + " — shape %s" % s,
                               unwind=6, unwindset=UWS, cap_s=600, cuts=CUTS_NOZ + enc_cuts(s),
                               recursion=[(r"encode_term_impl|parse_term_from_tag|parse_term$|refetf::(accepts_at|denotes|emit)", 2 if cont else 1)]))
